@@ -160,6 +160,40 @@ class C11(LZCheckMixin, PropertyCheck):
             cases.append(Case("lzd %s 2 %s" % (entry, hexb((bytes([0x13, 1, 2, 3]) if wrap else b"") + s)), "size-boundary-16MiB"))
             # ... and the same stream cut short by one byte must be an error
             cases.append(Case("lzd %s 2 %s" % (entry, hexb((bytes([0x13, 1, 2, 3]) if wrap else b"") + s[:-1])), "size-boundary-16MiB"))
+        # --- a reference reaching before the start at EVERY output length around the window edge (seeded C11-9: the range check
+        #     was skipped once the output held 0xFFF bytes, so stored displacement 0xFFF at 4095 bytes got through): out_len
+        #     bytes (a literal, then references at distance 1), then a reference of length 3 at distance out_len+1 / out_len+2
+        #     (<= 4096) - must be an error; and at out_len 4096 / 4097 the distances 4095 / 4096 are legal - must decode
+        for ver in (10, 11):
+            maxl = 18 if ver == 10 else 4000
+            for out_len in (1, 2, 17, 255, 4094, 4095, 4096, 4097):
+                toks = [rng.getrandbits(8)]
+                left = out_len - 1
+                while left > 0:
+                    ln = min(left, maxl)
+                    if 0 < left - ln < 3:
+                        ln -= 3
+                    if ln < 3:
+                        toks += [rng.getrandbits(8)] * left
+                        break
+                    toks.append((ln, 1))
+                    left -= ln
+                assert tokens_total(toks) == out_len
+                for d in (out_len + 1, out_len + 2, 4095, 4096):
+                    if d > 4096 or (d in (4095, 4096) and out_len < 4094):
+                        continue
+                    t2 = toks + [(3, d)]
+                    s0 = encode_stream(ver, t2, out_len + 3) + rand_bytes(rng, rng.randint(0, 2) if d > out_len else 0)
+                    for entry, wrap in (("10", False), ("13", False), ("13", True), ("f10", False), ("f13", True)):
+                        add(entry, (bytes([0x13]) + rand_bytes(rng, 3) if wrap else b"") + s0, "window-edge-reference-%s" % ("before-start" if d > out_len else "legal"))
+        # --- one LONG self-overlapping reference at a small odd distance / at the window edge over non-constant data (seeded C11-10:
+        #     a capped block copy): LZ11 four-byte length form, lengths 8192 .. 0x10110
+        for d in (3, 5, 7, 4095):
+            for ln in (8192, 8193, 20001, 0x10110):
+                toks = list(rand_bytes(rng, d)) + [(ln, d)]
+                s0 = encode_stream(11, toks, d + ln, rng.random() < 0.3)
+                entry, wrap = rng.choice([("10", False), ("13", False), ("13", True), ("f13", True), ("f10", False)])
+                add(entry, (bytes([0x13, 0, 0, 0]) if wrap else b"") + s0, "long-overlapping-reference", full=(d < 100 or ln <= 20001))
         # --- a long token section (seeded C11-5: `token_bytes * expansion` computed in u32 overflows for LZ11 streams with more
         #     than 261 060 token bytes): 232 056 / 240 000 literal bytes = 261 063 / 270 000 token bytes, bare and wrapped,
         #     through the LZ13 entry, the enum and the LZ10 entry (which decodes 0x11 streams too); compact form
